@@ -169,7 +169,7 @@ Theorem extend_layout : forall pre pht cs post vs fr,
               /\ (Sep seps sepsb cs -> Sep seps sepsb cs').
 Proof.
   intros pre pht cs post vs fr Hwf Hdon Hnn.
-  destruct (ins_layout ph seps sepsb Hseps Hsepsb pre pht cs [] post (map item_of (cs ++ [])) [] vs None fr) as ((fr' & Hi) & Hwf' & Hit).
+  destruct (ins_layout ph seps sepsb Hseps Hsepsb pre pht cs [] post (map item_of (cs ++ [])) [] vs None fr) as (Hi & Hwf' & Hit).
   - now rewrite app_nil_r.
   - reflexivity.
   - intros _ b0 B' E. destruct cs; discriminate.
@@ -192,7 +192,7 @@ Theorem append_layout : forall pre pht cs post v fr,
               /\ (Sep seps sepsb cs -> Sep seps sepsb cs').
 Proof.
   intros pre pht cs post v fr Hwf Hdon.
-  destruct (ins_layout ph seps sepsb Hseps Hsepsb pre pht cs [] post (map item_of (cs ++ [])) [] [v] None fr) as ((fr' & Hi) & Hwf' & Hit).
+  destruct (ins_layout ph seps sepsb Hseps Hsepsb pre pht cs [] post (map item_of (cs ++ [])) [] [v] None fr) as (Hi & Hwf' & Hit).
   - now rewrite app_nil_r.
   - reflexivity.
   - intros _ b0 B' E. destruct cs; discriminate.
@@ -226,7 +226,7 @@ Proof.
   assert (Hk : 0 <= Z.min (if i <? 0 then Z.max (i + zlen cs) 0 else i) (zlen cs) <= zlen cs)
     by (destruct (i <? 0) eqn:E; lia).
   destruct (cut_at cs _ Hk) as (A & B & Ecs & HA). rewrite Ecs in *. clear Ecs cs.
-  destruct (ins_layout ph seps sepsb Hseps Hsepsb pre pht A B post (map item_of (A ++ B)) B [v] None fr) as ((fr' & Hi) & Hwf' & Hit);
+  destruct (ins_layout ph seps sepsb Hseps Hsepsb pre pht A B post (map item_of (A ++ B)) B [v] None fr) as (Hi & Hwf' & Hit);
     [exact Hwf|reflexivity|intros _ b0 B' E; now right|exact Hdon|].
   exists (ins_res A B fr [v]). split; [|split; [exact Hwf'|split; [|split]]].
   4:{ intro HS. now apply Sep_ins. }
